@@ -1548,14 +1548,14 @@ def run(ctx):
 		# Lean line-rule models against the real validators, on seeded files and on conforming files
 		if ctx.driver:
 			model_requests.sort(key=lambda item: 0 if item[0].get('context') in ('prev:backslash', 'in:macro') else 1)  # those first (stable)
-			for case, modelled in model_requests[:ctx.scale(120, 1500)]:
+			for case, modelled in model_requests[:ctx.scale(90, 1200)]:
 				answer = ctx.driver.ask(f'lint {sx(modelled["path"])} {sx(modelled["text"])}')
 				ctx.count('model-lint:seeded-files')
 				if model_view(answer, entries, constants['mccMessages']) != modelled_view(modelled['reports'], entries):
 					ctx.fail(
 						'corr', f'{case["name"]} in {case["relpath"]}: modelled reports differ: model {model_view(answer, entries, constants["mccMessages"])[:6]}, '
 						f'implementation {modelled_view(modelled["reports"], entries)[:6]}', {'kind': 'seeded', 'case': case, 'model': answer[:300]})
-			for relpath in rng.sample(files, ctx.scale(30, 300)):
+			for relpath in rng.sample(files, ctx.scale(20, 250)):
 				with open(os.path.join(base, relpath), 'rt', encoding='utf8') as infile:
 					text = infile.read()
 				if not text.isascii():
